@@ -115,15 +115,15 @@ func init() {
 			ID: "C11",
 			Runs: []Run{
 				{S: c11Small(), Opt: map[Tier]Options{
-					Quick:    {Depth: 4, Budget: 120 * time.Second, ReplayEvery: 4},
+					Quick:    {Depth: 4, Budget: 120 * time.Second, ReplayEvery: 16},
 					Thorough: {Depth: 6, Budget: 10 * time.Minute, ReplayEvery: 8, MaxStates: 400000},
 				}},
 				{S: c11Extreme(), Opt: map[Tier]Options{
-					Quick:    {Depth: 4, Budget: 60 * time.Second, ReplayEvery: 4},
+					Quick:    {Depth: 4, Budget: 60 * time.Second, ReplayEvery: 16},
 					Thorough: {Depth: 7, Budget: 6 * time.Minute, ReplayEvery: 8, MaxStates: 300000},
 				}},
 				{S: streamSameBlock("timing-same-block", streamTiming), Opt: map[Tier]Options{
-					Quick:    {Depth: 3, Budget: 60 * time.Second, ReplayEvery: 8},
+					Quick:    {Depth: 3, Budget: 60 * time.Second, ReplayEvery: 16},
 					Thorough: {Depth: 5, Budget: 6 * time.Minute, ReplayEvery: 8, MaxStates: 300000},
 				}},
 			},
